@@ -4,7 +4,10 @@ package main
 import (
 	"fmt"
 	"os"
+	"runtime"
+	"strings"
 
+	"verif/engine/enum"
 	"verif/engine/evid"
 	"verif/engine/shard"
 	"verif/props/c01"
@@ -73,7 +76,39 @@ func main() {
 		os.Exit(2)
 	}
 	c := evid.New(id, tier, p.level)
-	p.run(c)
+	// a panic of the code under test that a check did not anticipate is a finding, not a crash
+	enum.OnPanic = func(r interface{}, stack string) {
+		// the innermost non-runtime frame decides whose panic it is: the library's (a finding) or
+		// this harness's own (a broken check, which must not be reported as a violation)
+		site := ""
+		if i := strings.Index(stack, "\npanic("); i >= 0 {
+			stack = stack[i+1:] // frames above the panic call belong to the recovering deferred function
+		}
+		for _, ln := range strings.Split(stack, "\n") {
+			ln = strings.TrimSpace(ln)
+			if !strings.Contains(ln, ".go:") || strings.Contains(ln, "/src/runtime/") {
+				continue
+			}
+			if strings.Contains(ln, "/repo/") {
+				site = strings.SplitN(ln, " +0x", 2)[0]
+			}
+			break
+		}
+		if site == "" {
+			fmt.Fprintf(os.Stderr, "CHECK-BROKEN: panic inside the harness: %v\n%s\n", r, stack)
+			os.Exit(2)
+		}
+		c.Violation(id+":panic:"+site, fmt.Sprintf("the code under test panicked inside a case of this check: %v at %s", r, site), map[string]interface{}{"panic": fmt.Sprint(r), "stack": stack})
+	}
+	func() {
+		defer func() {
+			if r := recover(); r != nil {
+				buf := make([]byte, 8192)
+				enum.OnPanic(r, string(buf[:runtime.Stack(buf, false)]))
+			}
+		}()
+		p.run(c)
+	}()
 	if shard.Worker() != nil {
 		os.Exit(c.FinishWorker())
 	}
